@@ -12,7 +12,7 @@ hooks = {
  "guard": "verif",
  "enable": "go build -tags verif (Go build tag; /verif/go/harness is always built with it against /repo's working tree)",
  "baseline_off_cmd": "/verif/scripts/baseline.sh",
- "source_commits": ["51f13e1", "3c44f3d"],
+ "source_commits": ["51f13e1", "3c44f3d", "bd14e30"],
  "add_only": True,
 }
 checks = []
